@@ -192,11 +192,11 @@ def run(ctx, build):
 def model_correspondence(ctx):
     """differential runs of the extracted Coq models of this property's cores against the real classes"""
     import fat_table_corr
-    fat_table_corr.run(ctx)
+    lib.corr_run(ctx, fat_table_corr)
     SPEC['theorems'].update(getattr(fat_table_corr, 'SPEC_THEOREMS', {}))
     SPEC['trusted_base'].extend(x for x in getattr(fat_table_corr, 'TRUSTED', []) if x not in SPEC['trusted_base'])
     import fat_alloc_corr
-    fat_alloc_corr.run(ctx)
+    lib.corr_run(ctx, fat_alloc_corr)
     SPEC['theorems'].update(getattr(fat_alloc_corr, 'SPEC_THEOREMS', {}))
     SPEC['trusted_base'].extend(x for x in getattr(fat_alloc_corr, 'TRUSTED', []) if x not in SPEC['trusted_base'])
 
